@@ -110,20 +110,23 @@ def c09Chunk : Handler := fun c => do
 def c09Masked : Handler := fun c => do
   let value ← getFrameValue c
   let x ← getX c
-  let mask ← getList (jsonToList jsonToBool) c "mask"
+  let mask ← getList (jsonToList jsonToBool) c "mask"         -- the logical (full-shape) mask
+  let maskRaw ← match fieldOpt c "mask_raw" with               -- the mask as passed (may be broadcastable)
+    | none => pure mask
+    | some j => jsonToList (jsonToList jsonToBool) j
   let batchFirst ← getBool c "batch_first"
   let inner ← getNat c "inner"   -- size of dimension 1 of x as given
+  let d0 := x.length
   let F ← getNat c "F"
   let dfl : Frame := List.replicate F 0
-  -- not batch_first: x, mask = x.transpose(0, 1), mask.transpose(0, 1)
+  -- shape of the raw mask: a size-1 dimension wherever it is shorter than the full one
+  let m0 := maskRaw.length
+  let m1 := if m0 = 0 then inner else (maskRaw.headD []).length
+  let model := res2J (padMaskedSequence batchFirst value d0 inner x m0 m1 maskRaw dfl)
+  -- oracle: per sequence (a column of x when not batch-first), the elements whose mask bit is set
   let xb := if batchFirst then x else transpose inner x dfl
   let mb := if batchFirst then mask else transpose inner mask false
-  let T := if batchFirst then inner else x.length
   let rows := List.zipWith (fun xs m => (⟨xs, m⟩ : MaskRow Frame)) xb mb
-  let fin := fun (o : List (List Frame)) => if batchFirst then o else transpose T o dfl
-  let model : Json := match padMaskedCore value T rows with
-    | .error e => errJ e
-    | .ok (out, lens) => objJ [("out", rowsJ (fin out)), ("lens", listJ natJ lens)]
   let spec := objJ [
     ("rows", rowsJ (rows.map (fun r => compact r.mask r.x))),
     ("lens", listJ natJ (rows.map (fun r => (compact r.mask r.x).length)))]
@@ -159,7 +162,55 @@ def c09Shift : Handler := fun c => do
         padSeq mode value p.1 p.2 (s.x.take s.len)) rows pads)),
       ("lens", listJ natJ (List.zipWith (fun (s : ShiftRow Frame) (p : Nat × Nat) =>
         s.len + p.1 + p.2) rows pads))]
-  pure (objJ [("model", res2J model), ("pinned", res2J pinned), ("spec", spec)])
+  -- the amounts under float64 (repaired code) and float32 (code before the float32-bound repair) rounding
+  let amt := fun (f : Rat → Nat → Rat → Nat) =>
+    listJ (fun (s : ShiftRow Frame) => listJ natJ [f p0 s.len s.u0, f p1 s.len s.u1]) rows
+  pure (objJ [("model", res2J model), ("pinned", res2J pinned), ("spec", spec),
+    ("amounts_f64", amt shiftAmountF64), ("amounts_f32", amt shiftAmountF32),
+    ("amounts_exact", amt shiftAmount)])
+
+def getOptShape (c : Json) (k : String) : Except String (Option (List Nat)) :=
+  match fieldOpt c k with
+  | none => pure none
+  | some j => some <$> jsonToList jsonToNat j
+
+def outcomeJ (r : Except Err Unit) : Json :=
+  match r with
+  | .ok _ => strJ "ok"
+  | .error e => strJ (errName e)
+
+/-- `result`: the model of the code's checks (`…Shapes`); `documented`: the documented shapes, stated
+directly (null where the documentation does not say: `chunk_by_slices` on an empty batch / an empty
+time dimension in a non-constant mode returns before looking at `lens`). -/
+def c09Shapes : Handler := fun c => do
+  let target ← getStr c "target"
+  let mode ← getStr c "mode" >>= parseMode
+  let x := (← getOptShape c "xshape").getD []
+  let lens ← getOptShape c "lens_shape"
+  let pad := (← getOptShape c "pad_shape").getD []
+  let mask := (← getOptShape c "mask_shape").getD []
+  let N := x.headD 0
+  let nd2 := decide (2 ≤ x.length)
+  let docJ := fun (ok : Bool) (e : Err) => if ok then strJ "ok" else strJ (errName e)
+  match target with
+  | "pad" =>
+    pure (objJ [("result", outcomeJ (padVariableShapes x (lens.getD []) pad)),
+      ("documented", docJ (nd2 && decide (lens = some [N]) && decide (pad = [2, N])) .value)])
+  | "chunk" =>
+    let early := nd2 && (decide (N = 0) || (decide ((x.drop 1).headD 1 = 0) && decide (mode ≠ .constant)))
+    pure (objJ [("result", outcomeJ (chunkBySlicesShapes mode x lens)),
+      ("documented", if early then Json.null
+        else docJ (nd2 && (lens.isNone || decide (lens = some [N]))) .runtime)])
+  | "masked" =>
+    let d1 := (x.drop 1).headD 0
+    let ok := nd2 && decide (mask.length = 2)
+      && (decide (mask.headD 0 = N) || decide (mask.headD 0 = 1))
+      && (decide ((mask.drop 1).headD 0 = d1) || decide ((mask.drop 1).headD 0 = 1))
+    pure (objJ [("result", outcomeJ (padMaskedShapes x mask)), ("documented", docJ ok .runtime)])
+  | "shift" =>
+    pure (objJ [("result", outcomeJ (randomShiftShapes x (lens.getD []))),
+      ("documented", docJ (nd2 && decide (lens = some [N])) .runtime)])
+  | _ => throw s!"c09.shapes: unknown target {target}"
 
 def main : IO Unit := Proto.run [("c09.pad", c09Pad), ("c09.chunk", c09Chunk),
-  ("c09.masked", c09Masked), ("c09.shift", c09Shift)]
+  ("c09.masked", c09Masked), ("c09.shift", c09Shift), ("c09.shapes", c09Shapes)]
